@@ -1,9 +1,63 @@
 import Pandora.Drv.Util
+import Pandora.Spec.C11
 
 namespace Pandora.Drv.C11
-open Pandora.Drv
+open Pandora.Drv Pandora.Spec.C11
 
-/-- stub: replaced when the property's model driver is written -/
-def handle : Handler := fun _ _ => ("-", "skip:not-built")
+def tbl := Pandora.Gen.Locks.table
+
+def dashList (s : String) : List String := if s == "-" then [] else splitList s
+
+def listDash (l : List String) : String := if l.isEmpty then "-" else ",".intercalate l
+
+def cfgOf (kv : List (String × String)) : PoolCfg :=
+  { kind := getS kv "kind", sharedClient := (getS kv "sc" "0") != "0" }
+
+/-- the observation could not be taken (environment, child process, timeout): nothing to judge -/
+def inconclusive (impl : String) : Option String :=
+  if impl.startsWith "ENV" then some "skip:inconclusive-env"
+  else if impl.startsWith "HANG" then some "skip:inconclusive-hang"
+  else if impl.startsWith "CHILD-FAILED" then some "skip:inconclusive-child"
+  else none
+
+/-- `races=` / `fatal=` appended by the -race build to a deterministic case -/
+def extraConc (okv : List (String × String)) : Option String :=
+  match lookup okv "fatal", lookup okv "races" with
+  | some f, _ => some s!"fail:fatal:{f}"
+  | none, some r => some s!"fail:race:{(r.splitOn ",").headD ""}"
+  | none, none => none
+
+def handle : Handler := fun input impl =>
+  let kv := parseKV input
+  let okv := parseKV impl
+  match inconclusive impl with
+  | some v => ("-", v)
+  | none =>
+  match getS kv "mode" with
+  | "locks" => ("static", judgeTable tbl)
+  | "alias" =>
+    let c := cfgOf kv
+    let o : AliasObs := { guns := getS okv "guns", ammo := getS okv "ammo", served := getS okv "served",
+                          shared := dashList (getS okv "shared" "-"), mutated := dashList (getS okv "mutated" "-") }
+    -- http ammo are struct values (`ammo=value`), scenario and grpc ammo are pointers
+    let ammo := if c.kind ∈ ["uri", "uripost", "raw", "httpjson"] then "value" else "distinct"
+    let mobs := s!"guns=distinct ammo={ammo} served=yes shared={listDash (expectedShared c)} mutated={listDash (expectedMutated c)}"
+    (mobs, (extraConc okv).getD (judgeAlias tbl o))
+  | "guns" =>
+    match getN? kv "n", getN? okv "created", getN? okv "distinct", getN? okv "maxoverlap", getN? okv "maxgoroutines" with
+    | some n, some cr, some di, some mo, some mg =>
+      let m := modelGuns n
+      let mobs := s!"run=- created={m.created} distinct={m.distinct} maxoverlap={m.maxoverlap} maxgoroutines={m.maxgoroutines} served=yes"
+      let v := judgeGuns { created := cr, distinct := di, maxoverlap := mo, maxgoroutines := mg }
+      (mobs, if v != "ok" then v else (extraConc okv).getD "ok")
+    | _, _, _, _, _ => ("-", (extraConc okv).getD s!"fail:crash:unparsable observation {impl.take 120}")
+  | "race" =>
+    let o : ConcObs := { fatal := getS okv "fatal" "-", detector := getS okv "detector", races := getS okv "races" "-" }
+    (s!"run=- served=yes samples=yes fatal=- detector={o.detector} races=-", judgeConc tbl [] o)
+  | "hammer" =>
+    let o : ConcObs := { fatal := getS okv "fatal" "-", detector := getS okv "detector", races := getS okv "races" "-" }
+    let calls := (getN? kv "n").getD 0 * (getN? kv "calls").getD 0
+    (s!"run=- calls={calls} fatal=- detector={o.detector} races=-", judgeConc tbl (hammerLocks (getS kv "obj")) o)
+  | m => ("-", s!"fail:driver:unknown mode {m}")
 
 end Pandora.Drv.C11
